@@ -13,6 +13,7 @@ import IocProofs.Lemmas.PlaceholderSources
 import IocProofs.Lemmas.SemStages
 import IocProofs.Lemmas.TagRound
 import IocProofs.Lemmas.SemConfDefault
+import IocProofs.Lemmas.SemTagScan
 namespace Ioc.C16
 open Ioc Ioc.Placeholder
 
@@ -567,5 +568,12 @@ theorem C16_code_configure_Default (w : Sem.CfgObj) (ls : List Go.Val) (b : Go.V
     Go.run Sem.cdPrims Progs.cfg_SetBinder [b] w = some (.tuple [], { w with binder := b }) :=
   ⟨Sem.cfgDefault_sem w, Sem.newConfigure_sem w, (Sem.cfgSetters_sem w ls b).1, (Sem.cfgSetters_sem w ls b).2.1,
    (Sem.cfgSetters_sem w ls b).2.2⟩
+
+/-- the `prop` shorthand IS a placeholder: the value scanner's ExtractHandler (regenerated, `C11_code_valueExtract`) wraps
+    EVERY `prop` key — whatever it starts with, nested placeholders included — into `${key}` followed by the argument text -/
+theorem C16_code_prop_is_placeholder (o : Sem.VXOps) :
+    Go.run (Sem.vxPrims o) Progs.scan_valueExtract [.ref 0 1, .ref 0 60] () =
+      (Sem.valueExtractS o).map (fun r => (Sem.encExtract r, ())) :=
+  Sem.valueExtract_sem o
 
 end Ioc.C16
